@@ -29,6 +29,8 @@ type ExprCondition struct {
 }
 
 func NewExprCondition(expression string) (Condition, error) {
+	// Upper(s) / Abs(x): function names are case-insensitive, expr-lang only knows two spellings
+	expression = functions.NormalizeFunctionNames(expression)
 	// Add custom string function support (startsWith, endsWith, contains are built-in operators)
 	options := []expr.Option{
 		expr.Function("like_match", func(params ...any) (any, error) {
